@@ -12,11 +12,16 @@ import (
 type Graph struct {
 	Nodes []string
 	Edges []string
+	// SharedMultiRef counts owner nodes holding an expression with two or more distinct step-output
+	// dependencies of which one is shared with another expression of the same owner (the shape in
+	// which "edge already exists" occurs while further dependencies are still to be connected).
+	SharedMultiRef int
 }
 
 type graphBuilder struct {
 	nodes map[string]string
 	edges map[string]string // "from->to" -> type (first wins, duplicates collapse)
+	exprs map[string][][]string
 }
 
 func (g *graphBuilder) node(id, kind string) { g.nodes[id] = kind }
@@ -42,7 +47,7 @@ var foreachLifecycle = map[string]map[string]string{
 
 // ExpectedGraph derives the dependency graph the workflow text implies (DESIGN appendix C).
 func ExpectedGraph(p *Program) *Graph {
-	g := &graphBuilder{nodes: map[string]string{}, edges: map[string]string{}}
+	g := &graphBuilder{nodes: map[string]string{}, edges: map[string]string{}, exprs: map[string][][]string{}}
 	g.node("input", "input")
 	for _, s := range p.Steps {
 		prefix := "steps." + s.ID + "."
@@ -88,6 +93,29 @@ func ExpectedGraph(p *Program) *Graph {
 		g.deps(o.Val, "outputs."+o.ID, nil)
 	}
 	out := &Graph{}
+	for _, lists := range g.exprs {
+		shared := false
+		for i, l := range lists {
+			if len(l) < 2 {
+				continue
+			}
+			for j, o := range lists {
+				if i == j {
+					continue
+				}
+				for _, a := range l {
+					for _, b := range o {
+						if a == b {
+							shared = true
+						}
+					}
+				}
+			}
+		}
+		if shared {
+			out.SharedMultiRef++
+		}
+	}
 	for id, k := range g.nodes {
 		out.Nodes = append(out.Nodes, id+"|"+k)
 	}
@@ -102,8 +130,17 @@ func ExpectedGraph(p *Program) *Graph {
 func (g *graphBuilder) exprDeps(e *Expr, owner string) {
 	var refs []Ref
 	e.Refs(&refs)
+	var ids []string
+	seen := map[string]bool{}
 	for _, r := range refs {
 		g.edge(r.NodeID(), owner, "and")
+		if id := r.NodeID(); id != "input" && !seen[id] {
+			seen[id] = true
+			ids = append(ids, id)
+		}
+	}
+	if g.exprs != nil && len(ids) > 0 {
+		g.exprs[owner] = append(g.exprs[owner], ids)
 	}
 }
 
